@@ -10,6 +10,15 @@ TRUST = ("TLC 1.8 and the TLA+ semantics; harness/absmap.py (gamma builds real o
          "alpha reads public props/paths/errors); the bounded universes stated in the evidence file")
 
 CHECKS = {
+ "C18": dict(
+    text="TLC explores spec/MC_Rollout.tla: every nested mapping of the bounded tree universe (labels incl. the empty "
+         "string, optional on any leaf, optional top-level `...`) and every order of its flat keys, consumed one key at a "
+         "time by the machine that mirrors rollout's loop and its recursive final pass; invariant: the result is the tree. "
+         "Each (tree, order) is replayed on the real rollout() with 2 (quick) / 4 (thorough) separators and labels that "
+         "contain the other separators; spec/Trace_C18.tla compares the abstracted real result with the tree and the "
+         "machine's result, and checks leaf identity, the `...` entry, the untouched input and identity on nested input.",
+    design="7 C18", technique="TLA+ machine of the rollout loop, TLC over trees x key orders; cases replayed on the real "
+                              "rollout; events trace-validated by TLC"),
  "C17": dict(
     text="spec/MC_Seed.tla states non-interference (the outputs of a seeded run are a function of seed and schemas; the "
          "interpreter configuration is a state component the generator model does not read, except at the listed "
